@@ -256,6 +256,9 @@ fn run(ctx: &mut Ctx) {
             }
         }
     }
+    if ctx.tier == crate::runner::Tier::Thorough {
+        ctx.fuzz_campaign("fuzz_build", 20000);
+    }
 }
 
 /// Replay entry for large-input cases.
